@@ -92,4 +92,38 @@ def check(run):
     run.check(set(w) <= {'sim::simulation::internal_connect'}, 'R2', 'true-endpoints-untouched', CH + '::ep', '', 'channel::ep is written by %s' % sorted(w), 'written only when the channel is created')
     wv = q.writers_of_field(fx, CH + '::visible_ep')
     run.check(set(wv) <= {'sim::simulation::internal_connect', N + '::incoming_packet'}, 'R2', 'visible-endpoints-writers', CH + '::visible_ep', '', 'channel::visible_ep is written by %s' % sorted(wv), 'written by channel creation and the NAT only')
+    run.clause('the NAT-visible values are reported, never acted upon: packet::from and channel::visible_ep have closed reader sets, and the core never calls remote_endpoint()')
+    T = 'sim::asio::ip::tcp::socket'
+    FROM_READERS = {N + '::incoming_packet': 'rewrites it', 'sim::asio::ip::udp::socket::receive_from_impl': 'reports the UDP sender', 'sim::aux::pcap::log_tcp': 'source port of the capture record',
+                    'sim::aux::pcap::log_udp': 'source port of the capture record', 'sim::asio::ip::udp::socket::send_to_impl': 'sets it', T + '::write_some_impl': 'sets it', T + '::close': 'sets it',
+                    'sim::asio::ip::tcp::acceptor::check_accept_queue': 'sets it', 'sim::simulation::internal_connect': 'sets it'}
+    users = {}
+    for fn in fx.repo_functions():
+        if fn.d.get('defaulted'):
+            continue
+        for a in q.field_accesses(fn, {P + '::from'}):
+            users.setdefault(q.top_function(fx, fn).norm, (fn, a))
+    for w, (fn, a) in sorted(users.items()):
+        run.touch(fn)
+        run.check(w in FROM_READERS, 'R2r', 'from-users', 'packet::from used by ' + w, fn.loc(a.node),
+                  '%s reads or writes packet::from: the source endpoint is rewritten by every NAT on the way, so any decision taken on it (matching, filtering) behaves differently behind a NAT - the NAT must change nothing but what is reported' % w,
+                  'tabled: ' + FROM_READERS.get(w, ''))
+    VIS_READERS = {T + '::remote_endpoint': 'reports it', 'sim::asio::ip::tcp::acceptor::check_accept_queue': 'reports it', N + '::incoming_packet': 'rewrites it', 'sim::simulation::internal_connect': 'initialises it'}
+    users = {}
+    for fn in fx.repo_functions():
+        if fn.d.get('defaulted'):
+            continue
+        for a in q.field_accesses(fn, {CH + '::visible_ep'}):
+            users.setdefault(q.top_function(fx, fn).norm, (fn, a))
+    for w, (fn, a) in sorted(users.items()):
+        run.touch(fn)
+        run.check(w in VIS_READERS, 'R2r', 'visible-ep-users', 'channel::visible_ep used by ' + w, fn.loc(a.node),
+                  '%s uses the NAT-visible endpoint for something other than reporting it to the user' % w, 'tabled: ' + VIS_READERS.get(w, ''))
+    core = {'sim::asio::ip::tcp::socket', 'sim::asio::ip::tcp::acceptor', 'sim::simulation', 'sim::asio::io_context', 'sim::asio::ip::udp::socket', 'sim::queue', N}
+    for fn, c in fx.callers_of_norm(T + '::remote_endpoint'):
+        top = q.top_function(fx, fn)
+        if top.cls in core and top.norm != T + '::remote_endpoint':
+            run.violation('R3', 'remote-endpoint-internal-use', '%s calls remote_endpoint()' % top.norm, fn.loc(c),
+                          'the library core uses the NAT-visible peer endpoint internally (%s): routing, MTU and matching must use the true endpoints, otherwise a NAT changes more than what is reported' % top.norm)
+    run.ok('R3', 'remote-endpoint-internal-use', 'scan', '', 'core classes never call remote_endpoint() on their own behalf', nontrivial=False)
     run.floor('R2', 6)
